@@ -67,6 +67,9 @@ type c13Source struct {
 	Points int      `json:"point_rows"`         // table "pois" (POINT)
 	Lines  int      `json:"line_rows"`          // table "roads" (LINESTRING)
 	Tables []string `json:"tables"`             // which tables exist, in creation order
+	// KeyStyle "bigint-desc": every table's key is declared BIGINT (no alias of the rowid) and the rows are stored in
+	// descending key order: source order is the order of storage, not the order of the keys
+	KeyStyle string `json:"key_style,omitempty"`
 }
 
 type c13Case struct {
@@ -137,6 +140,20 @@ func (s c13Source) build(path string) error {
 			tables = append(tables, roadsDef)
 			for i := 0; i < s.Lines; i++ {
 				rows["roads"] = append(rows["roads"], row{Attrs: []interface{}{int64(i + 1)}, Geom: geom.LineString{{155000, 463000 + float64(i)}, {155010.5, 463003.25}}})
+			}
+		}
+	}
+	if s.KeyStyle == "bigint-desc" {
+		for ti, t := range tables {
+			cols := append([]colDef{}, t.Cols...)
+			for ci := range cols {
+				if cols[ci].PK {
+					cols[ci].Type = "BIGINT"
+				}
+			}
+			tables[ti].Cols = cols
+			for ri := range rows[t.Name] {
+				rows[t.Name][ri].Attrs[0] = 1000 - rows[t.Name][ri].Attrs[0].(int64)
 			}
 		}
 	}
@@ -397,6 +414,13 @@ func c13Cases(thorough bool) []c13Case {
 			cs = append(cs, c13Case{Name: "L10 repeated id x overwrite scenario", TMS: rd, IDs: ids, Page: 2, Overwrite: scen.ov, Existing: scen.ex, Path: "out.gpkg", Src: s2b})
 		}
 	}
+	// L11: keys that are no rowid alias, stored in descending key order (source order = storage order): page sizes x id lists
+	for _, ids := range [][]int{{5}, {5, 8}} {
+		for _, page := range []int{1, 2, 0} {
+			cs = append(cs, c13Case{Name: "L11 bigint keys stored in descending order", TMS: rd, IDs: ids, Page: page, Keep: page == 2, Path: "out.gpkg",
+				Src: c13Source{Tables: []string{"parcels", "regions", "pois"}, Polys: []string{"plain", "pinch", "small", "hole"}, Multis: []string{"m-two", "m-two"}, Points: 3, KeyStyle: "bigint-desc"}})
+		}
+	}
 	// L8: table order: every ordering of every subset of >= 2 of the four tables (polygon, multipolygon, point, line);
 	// plus sources in which one of the tables has no rows
 	{
@@ -549,6 +573,6 @@ func runC13() {
 		"states": tot.States, "transitions": tot.States, "traces_validated_against_impl": 0, "samples": tot.Samples,
 		"evaluations": tot.States, "distinct_nontrivial": tot.Nontrivial, "exhaustive": tot.Exhaustive && int(tot.States) == len(cases),
 		"runs_per_sub_lattice": tot.PerLattice,
-		"rule":                 "state = one invocation of the real texel binary; the lattice is the union of fully enumerated sub-lattices: L1 id lists (single, descending, three, duplicate) x keep x reverse x page size {1,2,default}; L2 all 8 flag combinations (command line and environment) on a source with an outside-grid feature and on an in-grid source; L3 5 target path shapes x {fresh, overwrite, pre-existing + overwrite} x ids; L7 overwrite with every non-empty proper subset of the requested targets pre-existing x three id lists; L9 all 8 flag combinations with the off options given explicitly as false (command line and environment); L10 id lists with a repeated id x {fresh, overwrite, pre-existing + overwrite}; L8 every ordering of every subset of >= 2 of the four table kinds, and sources with one table without rows; L4 every sequence of <= 2 polygon kinds x <= 1 (thorough 2) multipolygon kinds with line table; L6 WebMercatorQuad and WorldMercatorWGS84Quad x two id lists x keep/reverse; thorough L5 page sizes x four tables; each run is compared file by file, table by table, row by row with the reference; non-trivial = sources with at least one (multi)polygon",
+		"rule":                 "state = one invocation of the real texel binary; the lattice is the union of fully enumerated sub-lattices: L1 id lists (single, descending, three, duplicate) x keep x reverse x page size {1,2,default}; L2 all 8 flag combinations (command line and environment) on a source with an outside-grid feature and on an in-grid source; L3 5 target path shapes x {fresh, overwrite, pre-existing + overwrite} x ids; L7 overwrite with every non-empty proper subset of the requested targets pre-existing x three id lists; L9 all 8 flag combinations with the off options given explicitly as false (command line and environment); L10 id lists with a repeated id x {fresh, overwrite, pre-existing + overwrite}; L11 tables whose key is no rowid alias (BIGINT) stored in descending key order; L8 every ordering of every subset of >= 2 of the four table kinds, and sources with one table without rows; L4 every sequence of <= 2 polygon kinds x <= 1 (thorough 2) multipolygon kinds with line table; L6 WebMercatorQuad and WorldMercatorWGS84Quad x two id lists x keep/reverse; thorough L5 page sizes x four tables; each run is compared file by file, table by table, row by row with the reference; non-trivial = sources with at least one (multi)polygon",
 	})
 }
